@@ -105,6 +105,11 @@ type vC16Cfg struct {
 	BatchMs int    `json:"batchMs"`
 	Path    string `json:"path"`
 	Snap0   string `json:"snap0"` // where a snapshot was taken while the stream was set up (information only)
+	// where the setting comes from: "request" (the per-stream option of CreateStream when on, nothing when
+	// off), "server" (no per-stream option, the server-wide streams.concurrency.control), "override" (the
+	// per-stream option says it explicitly, the server-wide setting says the opposite)
+	Src  string `json:"src"`
+	Occ0 bool   `json:"occ0"` // the setting of the commit log right after the creation (information only)
 }
 
 type vC16Event struct {
@@ -761,10 +766,16 @@ func (r *vC16Round) waitLeader() {
 	}
 }
 
-func (r *vC16Round) createStream(occ bool) {
+func (r *vC16Round) createStream(occ bool, src string) {
 	req := &client.CreateStreamRequest{Name: r.stream, Subject: r.stream}
-	if occ {
-		req.OptimisticConcurrencyControl = &client.NullableBool{Value: true}
+	switch src {
+	case "server": // no per-stream option
+	case "override":
+		req.OptimisticConcurrencyControl = &client.NullableBool{Value: occ}
+	default:
+		if occ {
+			req.OptimisticConcurrencyControl = &client.NullableBool{Value: true}
+		}
 	}
 	for attempt := 1; ; attempt++ {
 		// a loaded machine can exceed the 5 s Raft apply timeout: retry
@@ -931,10 +942,21 @@ func TestVerifC16Server(t *testing.T) {
 		// batching settings of the server for the leader loop of this round's stream
 		srv.config.BatchMaxMessages = r.cfg.Batch
 		srv.config.BatchMaxTime = time.Duration(r.cfg.BatchMs) * time.Millisecond
+		// the server-wide setting (read when a partition object is built: creation, restart, restore)
+		r.cfg.Src = vStrDef(b.Cfg, "src", "request")
+		wide := false
+		switch r.cfg.Src {
+		case "server":
+			wide = vBool(b.Cfg, "occ")
+		case "override":
+			wide = !vBool(b.Cfg, "occ")
+		}
+		srv.config.Streams.ConcurrencyControl = wide
+		env.cfg.Streams.ConcurrencyControl = wide
 		if vBool(b.Cfg, "recreate") {
 			// an earlier incarnation of the stream with the opposite setting: created,
 			// written to, deleted - then the stream of the round is created
-			r.createStream(!vBool(b.Cfg, "occ"))
+			r.createStream(!vBool(b.Cfg, "occ"), "override")
 			ctx, cancel := context.WithTimeout(context.Background(), vC16Deadline)
 			r.srv.api.Publish(ctx, &client.PublishRequest{Stream: r.stream, Value: []byte("old"), // nolint: errcheck
 				AckPolicy: client.AckPolicy_LEADER, ExpectedOffset: -1})
@@ -960,12 +982,14 @@ func TestVerifC16Server(t *testing.T) {
 				r.snapshot() // taken between the deletion and the creation: holds no stream of that name
 			}
 		}
-		r.createStream(vBool(b.Cfg, "occ"))
+		r.createStream(vBool(b.Cfg, "occ"), r.cfg.Src)
 		if r.cfg.Snap0 == "cur" {
 			r.snapshot() // the newest snapshot holds the stream of the round
 		}
-		// observed, not assumed
-		r.cfg.Occ = r.part.log.IsConcurrencyControlEnabled()
+		// the stream is one with concurrency control when its configuration says so (per-stream option, else
+		// the server-wide setting); what the commit log got is observed next to it
+		r.cfg.Occ = vBool(b.Cfg, "occ")
+		r.cfg.Occ0 = r.part.log.IsConcurrencyControlEnabled()
 
 		for _, x := range b.Cfg["pubs"].([]interface{}) {
 			p := &vC16Pub{name: x.(string), run: r, pending: map[string]*vC16Pending{}}
